@@ -393,6 +393,9 @@ func (g *c14gen) mutate(kind string) (*Topo, string) {
 var c14valid = []string{"move-node-address", "shift-boundary", "move-range", "single-slot", "unclaim-range", "add-master", "add-replica", "add-replica-loading", "add-replica-linkdown", "remove-replica",
 	"remove-master", "failover", "reparent-replica", "change-ids", "flag-master-fail", "flag-replica", "unflag", "migration-markers", "seven-column-line", "toggle-cport", "move-range", "failover", "pad-large"}
 
+// c14delayed arms the delayed-probe variant of the rapid pairs (see DESIGN.md section 14).
+var c14delayed = os.Getenv("C14_DELAYED_PROBES") != ""
+
 var (
 	c14deckMu sync.Mutex
 	c14deck   []string
@@ -804,7 +807,7 @@ func c14lane(c *Check, rng *rand.Rand, lane, steps int, hooks, mode string) {
 			// (the second change is one that routing probes can see: if the proxy keeps the
 			// intermediate description, that shows)
 			k2 := c14nextKind(rng)
-			if rng.Intn(2) == 0 {
+			if c14delayed && rng.Intn(2) == 0 {
 				k2 = []string{"move-range", "shift-boundary", "failover"}[rng.Intn(3)]
 			}
 			nt2, kind2 := gen.mutate(k2)
@@ -819,7 +822,7 @@ func c14lane(c *Check, rng *rand.Rand, lane, steps int, hooks, mode string) {
 			}
 			if nref2 := c14interpret(nt2, both); nref2 != nil {
 				nt.Install(env.Cl)
-				if rng.Intn(3) > 0 {
+				if c14delayed && rng.Intn(3) > 0 {
 					// The proxy probes once per table tick, right after the tick has loaded what
 					// the previous probe brought. The reply carrying the intermediate description
 					// is written a little more than a tick late, the next probe's reply (final
